@@ -36,7 +36,7 @@ ANCHORS = [
     ("deepali.modules.sample", "AlignImage.forward"),
     ("deepali.modules.sample", "TransformImage.forward"),
 ]
-N_CASES = {"quick": 80, "thorough": 3000}
+N_CASES = {"quick": 80, "thorough": 8000}
 BUDGET = {"quick": 400, "thorough": 3600}
 
 PADDINGS = [None, "zeros", "border", 1.75, -3.0]
